@@ -162,6 +162,7 @@ _NP_FUNCS = {
     "diag": lambda a: np.diag(_arr(a)),
     "swapaxes": lambda a, i, j: np.swapaxes(_arr(a), i, j),
     "cross": lambda a, b: _cross(_arr(a), _arr(b)),
+    "zeros_like": lambda a, **k: np.zeros(_arr(a).shape),
     "atleast_2d": lambda a: np.atleast_2d(_arr(a)),
     "atleast_1d": lambda a: np.atleast_1d(_arr(a)),
     "ix_": lambda *a: np.ix_(*[np.asarray(x, dtype=int) for x in a]),
